@@ -1,13 +1,14 @@
 (* Model of the multi-document drivers of yamlpath/commands/yaml_merge.py:
    merge_condense_all (434-467), merge_across (469-498), merge_matrix (500-521,
-   after fix: each left document receives its own copy of each right document).
+   after fix: each left document receives its own copy of each right document),
+   merge_docs (523-546).
 
    A Merger object is its document.  The pairwise step `lhs.merge_with(rhs)` is
    the Section variable [merge2]: it yields the left document after the call
    (merge_with mutates it, also when it then raises) and the exception, if any.
    For execution it is instantiated with C05's model (Merge.merge_root). *)
 From Coq Require Import List ZArith Bool.
-From YP Require Import Outcome.
+From YP Require Import Outcome MergeConfig.
 Import ListNotations.
 
 Section MultiDoc.
@@ -93,6 +94,26 @@ Fixpoint merge_matrix_from (ls rs : list doc) (st : nat) : outcome (list doc * n
       Ok (l' :: t, st')
   end.
 Definition merge_matrix (ls rs : list doc) : outcome (list doc * nat) := merge_matrix_from ls rs 0.
+
+(* merge_docs (yaml_merge.py:523-546), the dispatcher main() calls once per
+   right-hand FILE: the mode is read first (NameError for an unknown text),
+   then the file is loaded into one Merger per document -- [rhs] is the loaded
+   stream, every document of the file in file order, an empty document (`---`
+   with nothing after it) being the document None; [None] = the file could
+   not be loaded (exit state 3, nothing merged) -- and the WHOLE stream is
+   handed to the driver of the mode. *)
+Definition merge_docs (mode : outcome mdmode) (rhs : option (list doc)) (ls : list doc)
+  : outcome (list doc * nat) :=
+  do m <- mode;
+  match rhs with
+  | None => Ok (ls, 3)
+  | Some rs =>
+      match m with
+      | MCondense => merge_condense_all ls rs
+      | MAcross => merge_across ls rs
+      | MMatrix => merge_matrix ls rs
+      end
+  end.
 
 (* ---- the declarative side (Spec) ---- *)
 Definition m2 (l r : doc) : doc := fst (merge2 l r).
